@@ -286,7 +286,10 @@ def selector_rules(prog, rep):
                 a = t["args"][1]
                 order.append(a.get("v") if a.get("k") == "str" else "?")
         if not order:
-            rep.undecided("selector", "%s: order of the two captures" % fn, "the function does not read regex captures (hand-written splitting is not followed by this rule)", b.where())
+            # always-on rule: fail closed. A hand-written splitter in place of the anchored regex is exactly where
+            # "malformed rows are rejected" goes wrong (trailing words ignored, empty tokens accepted), and this
+            # analysis has no string-language domain to decide it.
+            rep.analysis_error("selector", "%s: the two parts are taken from an anchored regular expression" % fn, "the function does not read regex captures: which strings it accepts cannot be decided here", b.where())
             continue
         rep.ob("selector", "%s reads groups in textual order" % fn, order == [first, second], "groups read: %s" % order, b.where(), key="selector|order|%s" % fn)
         # and the result is built as (first, second): origin of the aggregate's operands
